@@ -25,7 +25,7 @@ ASSUMPTIONS = ['NLA: the site is the reference coordinate of the C of CATG; CHIC
                'cycle-shifted reads are simulated without soft clip']
 MIN_NONTRIVIAL = {'quick': 3000, 'thorough': 150000}
 REQUIRED_MONITORS = ['obs:nla_fragments', 'obs:chic_fragments', 'obs:cycle_shift', 'obs:motif_broken', 'obs:clipped', 'mirror:fragments',
-                     'cli:records_checked', 'obs:invert_strand', 'obs:single_end', 'obs:sites_at_contig_ends', 'obs:fragments_with_site_0', 'molecule:family_sites_compared']
+                     'cli:records_checked', 'obs:invert_strand', 'obs:single_end', 'obs:sites_at_contig_ends', 'obs:fragments_with_site_0', 'molecule:family_sites_compared', 'obs:non_default_primer_lengths']
 SHARD_TIMEOUT = {'quick': 900, 'thorough': 5400}
 
 
@@ -175,6 +175,11 @@ def run_case(case):
     header = make_header(gen.refs)
     fclass = smf.NlaIIIFragment if method == 'nla' else smf.CHICFragment
     fargs = {'umi_hamming_distance': 0}
+    if r.random() < 0.4:
+        # options of the fragment classes that concern consensus masking, not the cut site
+        fargs['R1_primer_length'] = r.choice([0, 6, 8])
+        fargs['R2_primer_length'] = r.choice([0, 6])
+        acc.count('obs:non_default_primer_lengths')
     if method == 'nla' and allow_shift:
         fargs['allow_cycle_shift'] = True
     if invert:
